@@ -71,3 +71,30 @@ Print Assumptions C20_fan_triangles_cover_a_convex_quad.
 Example C20_dart_reflex_at_position_1 :
   Mesh2D__quad_to_triangles [mkV2 0 0; mkV2 2 1; mkV2 4 0; mkV2 2 4] = [(1, 2, 3); (3, 0, 1)].
 Proof. vm_compute. reflexivity. Qed.
+
+(* ---- removing faces: Mesh2D / Mesh3D.remove_faces_only (generated from the source) ------------------------------------------------ *)
+From Coq Require Import ZArith List.
+From LBG Require Import G4_face C20_remove.
+Theorem C20_remove_faces_only_keeps_exactly_the_flagged_faces_in_order : forall (m : Mesh3R) (pat : list bool),
+  length pat = length (m3_faces m) ->
+  m3_vertices (Mesh3D_remove_faces_only m pat) = m3_vertices m /\
+  m3_faces (Mesh3D_remove_faces_only m pat) = map fst (filter snd (combine (m3_faces m) pat)) /\
+  length (m3_faces (Mesh3D_remove_faces_only m pat)) = length (filter (fun b => b) pat).
+Proof.
+  intros m pat H. split; [exact (proj1 (mesh3_remove_faces_only_spec m pat))|]. exact (mesh3_remove_faces_only_is_filter m pat H).
+Qed.
+Print Assumptions C20_remove_faces_only_keeps_exactly_the_flagged_faces_in_order.
+
+Theorem C20_remove_faces_only_2d_and_3d_agree : forall (m2 : Mesh2R) (m3 : Mesh3R) (pat : list bool),
+  m2_faces m2 = m3_faces m3 -> m2_faces (Mesh2D_remove_faces_only m2 pat) = m3_faces (Mesh3D_remove_faces_only m3 pat).
+Proof.
+  intros m2 m3 pat H. rewrite (proj2 (mesh2_remove_faces_only_spec m2 pat)), (proj2 (mesh3_remove_faces_only_spec m3 pat)), H. reflexivity.
+Qed.
+Print Assumptions C20_remove_faces_only_2d_and_3d_agree.
+
+Example C20_remove_faces_only_concrete :
+  m3_faces (Mesh3D_remove_faces_only (mkMesh3 (mkV3 0 0 0 :: mkV3 1 0 0 :: mkV3 1 1 0 :: mkV3 0 1 0 :: nil)
+                                              ((0 :: 1 :: 2 :: nil) :: (2 :: 3 :: 0 :: nil) :: (1 :: 2 :: 3 :: nil) :: nil)%Z)
+                                     (true :: false :: true :: nil))
+  = ((0 :: 1 :: 2 :: nil) :: (1 :: 2 :: 3 :: nil) :: nil)%Z.
+Proof. vm_compute. reflexivity. Qed.
